@@ -22,6 +22,10 @@ func zzMsgTU(expected, found, text string) string {
 	return "type unmatched (expected=" + expected + ", found=" + found + ", path=" + text + ")"
 }
 func zzMsgFF(text, fn string) string {
+	if fn == "failrt" {
+		// failrt returns one of the library's own runtime errors, which is wrapped like any other
+		return "function failed (function=" + text + ", error=member did not exist (path=.zzforeign))"
+	}
 	return "function failed (function=" + text + ", error=user function " + fn + " failed)"
 }
 
